@@ -10,7 +10,7 @@ WEIGHTS = dict(EditEntry=2, Group=6, Ungroup=3, Sort=5, Permute=4, Reverse=2, Re
 
 def run(tier, seed):
     rng = random.Random(seed * 217645177 + 15)
-    mcs = [core.mc("MC_Acl", "MC_Acl" if tier == "quick" else "MC_Acl_4")]
+    mcs = [core.mc("MC_Acl", "MC_Acl" if tier == "quick" else "MC_Acl_4"), core.mc("MC_Acl", "MC_Acl_deep")]
     n = 1800 if tier == "quick" else 15000
     jobs = [aclhist.make_history(rng, t, WEIGHTS, nops=rng.randint(2, 9)) for t in range(1, n + 1)]
     aclhist.fill_permutations(rng, jobs)
